@@ -371,22 +371,10 @@ fn rec_i32(b: &mut Bufs, at: usize, field: usize) -> i32 {
 
 const CLIENT_ID: i64 = 100; // the correlation counter starts here; DriverProxy::new draws the client id from it
 
-/// A second, valid conductor used as the `arced_self` handle of resources created by the conductor under test, so that
-/// destructor paths CBMC explores (Counter::drop / Subscription::drop -> conductor.lock().release_*) run on valid memory
-/// instead of the uninitialised dummy. The harnesses `mem::forget` every handle, so no such destructor really runs.
-fn sink_conductor() -> Arc<Mutex<ClientConductor>> {
-    let bufs: &'static mut Bufs = Box::leak(Box::new(Bufs::new()));
-    bufs.set_correlation_counter(9000);
-    let mut c = conductor(bufs, 1000, 1000, 1000);
-    c.arced_self = None;
-    Arc::new(Mutex::new(c))
-}
-
 fn fresh(b: &mut Bufs, driver_timeout: u64) -> ClientConductor {
     b.set_correlation_counter(CLIENT_ID);
     b.set_driver_heartbeat(-1);
-    let mut c = conductor(b, driver_timeout, 5000, 5000);
-    c.arced_self = Some(sink_conductor());
+    let c = conductor(b, driver_timeout, 5000, 5000);
     unsafe {
         SEEN.errors = 0;
         SEEN.avail_counters = 0;
@@ -486,7 +474,11 @@ fn $name() {
 }
     };
 }
-// @verif tier=quick unwind=6 fs=1300 timeout=1500
+// NOT DECIDED (tier=off): once the driver's ready event has created the Arc<Counter> / Arc<Mutex<Subscription>>, every place
+// that may drop such a handle drags the destructor glue of a whole ClientConductor (the handle holds Arc<Mutex<ClientConductor>>)
+// into symex - hashbrown's SIMD group scans over symbolic-looking control bytes - and the harness does not leave symex
+// (25 min timeout / out of memory at 10 GB, measured with a dummy, a valid second conductor, and Drop stubs).
+// @verif tier=off unwind=6 fs=1300 timeout=1500
 counter_protocol!(c09_counter_ready_find_twice, 0);
 // @verif tier=quick unwind=6 fs=1300 timeout=1500
 counter_protocol!(c09_counter_foreign_ready_ignored, 1);
@@ -581,7 +573,7 @@ fn $name() {
 }
     };
 }
-// @verif tier=quick unwind=6 fs=1300 timeout=1500
+// @verif tier=off unwind=6 fs=1300 timeout=1500
 sub_protocol!(c09_subscription_ready_find_release, 0);
 // @verif tier=quick unwind=6 fs=1300 timeout=1500
 sub_protocol!(c09_subscription_foreign_ready_ignored, 1);
@@ -592,32 +584,230 @@ sub_protocol!(c09_subscription_foreign_error_ignored, 3);
 // @verif tier=quick unwind=6 fs=1300 timeout=1500
 sub_protocol!(c09_subscription_unanswered_times_out, 4);
 
-// @verif tier=off unwind=6 fs=1300 timeout=900
+/// Publications (shared / exclusive): add -> {foreign ready | error | foreign error | nothing} -> find twice -> release.
+macro_rules! pub_protocol {
+    ($name:ident, $exclusive:expr, $event:expr) => {
 #[kani::proof]
 #[kani::stub(std::hash::RandomState::new, stub_random_state)]
-fn c09_probe_a_ready_only() {
+fn $name() {
     let mut b = Bufs::new();
-    let mut c = fresh(&mut b, 1000);
-    unsafe { SEEN.now = 5 };
-    let key = [1u8; 4];
-    let id = vok!(c.add_counter(3, &key, "ab"), "C09: add");
-    c.on_available_counter(id, 1);
-    assert!(unsafe { SEEN.avail_counters } == 1, "C09: probe");
+    let driver_timeout = any_timeout();
+    let mut c = fresh(&mut b, driver_timeout);
+    let t0 = any_time();
+    unsafe { SEEN.now = t0 };
+    let stream: i32 = kani::any();
+    let exclusive: bool = $exclusive;
+    let id = if exclusive {
+        vok!(c.add_exclusive_publication(text(b"ch"), stream), "C09: add_exclusive_publication on an open conductor succeeds")
+    } else {
+        vok!(c.add_publication(text(b"ch"), stream), "C09: add_publication on an open conductor succeeds")
+    };
+    assert!(id == CLIENT_ID + 1, "C09: add returns the fresh correlation id");
+    // publication message: client @0, correlation @8, stream @16, channel length @20, channel @24
+    assert!(b.ring_tail() == 40 && rec_len(&mut b, 0) == 8 + 24 + 2 && rec_type(&mut b, 0) == if exclusive { 0x03 } else { 0x01 }, "C09: exactly one ADD_(EXCLUSIVE_)PUBLICATION record");
+    assert!(rec_i64(&mut b, 0, 0) == CLIENT_ID && rec_i64(&mut b, 0, 8) == id && rec_i32(&mut b, 0, 16) == stream, "C09: publication fields on the wire");
+    assert!(rec_i32(&mut b, 0, 20) == 2 && b.ring.0[8 + 24] == b'c' && b.ring.0[8 + 25] == b'h', "C09: channel on the wire");
+    let event: u8 = $event;
+    let err_code: i32 = kani::any();
+    match event {
+        1 => {
+            if exclusive {
+                c.on_new_exclusive_publication(id + 1000, id + 1000, stream, 1, 0, 0, text(b"f"));
+            } else {
+                c.on_new_publication(id + 1000, id + 1000, stream, 1, 0, 0, text(b"f"));
+            }
+        }
+        2 => c.on_error_response(id, err_code, text(b"no")),
+        3 => c.on_error_response(id + 1000, err_code, text(b"no")),
+        _ => {}
+    }
+    let t1 = any_time();
+    kani::assume(t1 >= t0);
+    unsafe { SEEN.now = t1 };
+    let timed_out = t1 > t0 + driver_timeout;
+    if exclusive {
+        let first = c.find_exclusive_publication(id);
+        let second = c.find_exclusive_publication(id);
+        if event == 2 {
+            assert!(matches!(first, Err(AeronError::RegistrationException(code, _)) if code == err_code), "C09: the driver's error is reported");
+            assert!(matches!(second, Err(AeronError::Generic(GenericError::ExclusivePublicationNotFound))), "C09: the error is reported once, then the registration is gone");
+        } else if timed_out {
+            assert!(matches!(first, Err(AeronError::DriverTimeout(DriverInteractionError::NoResponse(_)))), "C09: unanswered registration -> driver timeout once the timeout has passed");
+        } else {
+            assert!(matches!(first, Err(AeronError::Generic(GenericError::ExclusivePublicationNotReadyYet { .. }))), "C09: unanswered registration is not ready before the driver timeout");
+        }
+        std::mem::forget(first);
+        std::mem::forget(second);
+    } else {
+        let first = c.find_publication(id);
+        let second = c.find_publication(id);
+        if event == 2 {
+            assert!(matches!(first, Err(AeronError::RegistrationException(code, _)) if code == err_code), "C09: the driver's error is reported");
+            assert!(matches!(second, Err(AeronError::Generic(GenericError::PublicationNotFound))), "C09: the error is reported once, then the registration is gone");
+        } else if timed_out {
+            assert!(matches!(first, Err(AeronError::DriverTimeout(DriverInteractionError::NoResponse(_)))), "C09: unanswered registration -> driver timeout once the timeout has passed");
+        } else {
+            assert!(matches!(first, Err(AeronError::PublicationNotReady(x)) if x == id), "C09: unanswered registration is not ready before the driver timeout");
+        }
+        std::mem::forget(first);
+        std::mem::forget(second);
+    }
+    assert!(unsafe { SEEN.new_pubs } == 0, "C09: answers for foreign ids do not announce a publication");
+    if event != 2 {
+        let tail = b.ring_tail();
+        let r = if exclusive { c.release_exclusive_publication(id) } else { c.release_publication(id) };
+        assert!(r.is_ok(), "C09: releasing a known registration succeeds");
+        assert!(b.ring_tail() == tail + 32 && rec_len(&mut b, 40) == 32 && rec_type(&mut b, 40) == 0x02, "C09: exactly one REMOVE_PUBLICATION command");
+        assert!(rec_i64(&mut b, 40, 8) == id + 1 && rec_i64(&mut b, 40, 16) == id, "C09: remove carries a fresh correlation id and the registration id");
+        let again = if exclusive { c.release_exclusive_publication(id) } else { c.release_publication(id) };
+        assert!(again.is_err() && b.ring_tail() == tail + 32, "C09: a second release sends nothing");
+        std::mem::forget(again);
+    }
+    kani::cover!(event != 4 || t1 == t0 + driver_timeout, "[must] instance reaches the end (exact registration-timeout boundary when unanswered)");
+    std::mem::forget(c);
+}
+    };
+}
+// @verif tier=quick unwind=6 fs=1300 timeout=1500
+pub_protocol!(c09_publication_unanswered_times_out, false, 4);
+// @verif tier=quick unwind=6 fs=1300 timeout=1500
+pub_protocol!(c09_publication_error_reported_once, false, 2);
+// @verif tier=thorough unwind=6 fs=1300 timeout=1500
+pub_protocol!(c09_publication_foreign_ready_ignored, false, 1);
+// @verif tier=quick unwind=6 fs=1300 timeout=1500
+pub_protocol!(c09_exclusive_publication_unanswered_times_out, true, 4);
+// @verif tier=thorough unwind=6 fs=1300 timeout=1500
+pub_protocol!(c09_exclusive_publication_error_reported_once, true, 2);
+// @verif tier=thorough unwind=6 fs=1300 timeout=1500
+pub_protocol!(c09_exclusive_publication_foreign_error_ignored, true, 3);
+
+// ------------------------------------------------------------------------------------------------------------------
+// C10 — the conductor survives faults.
+
+use crate::concurrent::broadcast::broadcast_receiver::BroadcastReceiver;
+use crate::concurrent::broadcast::copy_broadcast_receiver::CopyBroadcastReceiver;
+
+/// scratch buffer of the copy receiver: 256 real bytes instead of 4096 (its nominal capacity stays 4096; CBMC's pointer
+/// checks would flag any access beyond the real allocation)
+fn small_alloc(_size: crate::utils::types::Index) -> *mut u8 {
+    unsafe { std::alloc::alloc_zeroed(std::alloc::Layout::from_size_align_unchecked(256, 64)) }
+}
+
+/// The only AlignedBuffer in these harnesses is the copy receiver's scratch buffer, owned by the driver listener adapter:
+/// reaching its deallocation means a duty cycle destroyed the adapter. The path is cut afterwards (the destructor glue
+/// of the adapter's conductor handle does not leave symex).
+unsafe fn no_dealloc(_p: *mut u8, _len: crate::utils::types::Index) {
+    assert!(false, "C10: the driver listener adapter was destroyed by a duty cycle (no later event can be processed)");
+    kani::assume(false);
+}
+
+fn put_event(m: &mut Mem<192>, at: usize, len: i32, ty: i32, body: i64) {
+    m.buf().put::<i32>(at as i32, len);
+    m.buf().put::<i32>(at as i32 + 4, ty);
+    m.buf().put::<i64>(at as i32 + 8, body);
+}
+
+/// The driver overruns the broadcast (the client is lapped): the duty cycle reports the loss through its result, and
+/// the NEXT duty cycle still works and delivers the next event - no panic, later events still processed.
+// @verif tier=quick unwind=6 fs=1300 timeout=1500
+#[kani::proof]
+#[kani::stub(std::hash::RandomState::new, stub_random_state)]
+#[kani::stub(crate::utils::misc::alloc_buffer_aligned, small_alloc)]
+#[kani::stub(crate::utils::misc::dealloc_buffer_aligned, no_dealloc)]
+fn c10_do_work_survives_broadcast_overrun() {
+    let mut b = Bufs::new();
+    let mut c = fresh(&mut b, 10_000);
+    unsafe { SEEN.now = 0 };
+    let mut bm = Mem::<192>::zeroed(); // 64 data bytes + 128 trailer
+    let rx = match BroadcastReceiver::new(bm.buf()) {
+        Ok(r) => r,
+        Err(_) => unreachable!(),
+    };
+    let copy = Arc::new(Mutex::new(CopyBroadcastReceiver::new(Arc::new(Mutex::new(rx)))));
+    c.driver_listener_adapter = Some(DriverListenerAdapter::new(copy, dummy_conductor()));
+    // the driver has meanwhile transmitted two laps: tail intent = tail = 128, latest record at 112 (offset 48)
+    let corr: i64 = kani::any();
+    put_event(&mut bm, 48, 16, 0x0F04, corr); // operation success for some correlation id
+    bm.buf().put::<i64>(64, 128);
+    bm.buf().put::<i64>(72, 128);
+    bm.buf().put::<i64>(80, 112);
+
+    let first = c.do_work();
+    assert!(matches!(first, Err(AeronError::BroadcastTransmitError(_))), "C10: being lapped by the driver is reported through the duty cycle's result");
+    std::mem::forget(first);
+    assert!(c.driver_listener_adapter.is_some(), "C10: the driver listener survives a reported fault");
+    // next event arrives; the next duty cycle must process it
+    put_event(&mut bm, 0, 16, 0x0F04, corr);
+    bm.buf().put::<i64>(64, 144);
+    bm.buf().put::<i64>(72, 144);
+    bm.buf().put::<i64>(80, 128);
+    let second = c.do_work();
+    assert!(matches!(second, Ok(n) if n >= 1), "C10: the duty cycle after a fault runs normally and processes the next event");
+    std::mem::forget(second);
+    assert!(!c.is_closed(), "C10: a broadcast overrun does not close the client");
     std::mem::forget(c);
 }
 
-// @verif tier=off unwind=6 fs=1300 timeout=900
+/// Client timeout / orderly close: everything is closed once, callbacks fire once, later API calls report that the
+/// client is closed and write nothing; a timeout event for a foreign client id is ignored.
+/// `with`: which Awaiting registration exists when the timeout arrives (0 none, 1 a counter, 2 a subscription, 3 a publication);
+/// `api`: exercise the API after the close; `again`: deliver the timeout again and close again.
+macro_rules! client_timeout {
+    ($name:ident, $with:expr, $api:expr, $again:expr) => {
 #[kani::proof]
 #[kani::stub(std::hash::RandomState::new, stub_random_state)]
-fn c09_probe_b_ready_find_once() {
+fn $name() {
     let mut b = Bufs::new();
-    let mut c = fresh(&mut b, 1000);
-    unsafe { SEEN.now = 5 };
+    let mut c = fresh(&mut b, 10_000);
+    unsafe { SEEN.now = 0 };
     let key = [1u8; 4];
-    let id = vok!(c.add_counter(3, &key, "ab"), "C09: add");
-    c.on_available_counter(id, 1);
-    let x = vok!(c.find_counter(id), "C09: found");
-    assert!(x.id() == 1, "C09: probe");
-    std::mem::forget(x);
+    let with: u8 = $with;
+    let rid = match with {
+        1 => vok!(c.add_counter(3, &key, "ab"), "C10: add_counter"),
+        2 => vok!(c.add_subscription(text(b"ch"), 5, Box::new(on_image as fn(&Image)), Box::new(on_image as fn(&Image))), "C10: add_subscription"),
+        3 => vok!(c.add_publication(text(b"ch"), 6), "C10: add_publication"),
+        _ => 0,
+    };
+    let victim: i64 = kani::any();
+    c.on_client_timeout(victim);
+    if victim == CLIENT_ID {
+        assert!(c.is_closed(), "C10: a client-timeout event for this client closes it");
+        assert!(unsafe { SEEN.errors } == 1 && unsafe { SEEN.last_error } == E_CLIENT_TIMEOUT, "C10: the client timeout is reported to the error handler once");
+        assert!(unsafe { SEEN.closes } == 1, "C10: close handlers fire exactly once");
+        if with != 0 {
+            assert!(c.counter_by_registration_id.is_empty() && c.subscription_by_registration_id.is_empty() && c.publication_by_registration_id.is_empty(), "C10: every registration is dropped on close");
+        }
+        if $api {
+            let tail = b.ring_tail();
+            let r1 = c.add_publication(text(b"ch"), 6);
+            assert!(matches!(r1, Err(AeronError::Generic(GenericError::ClientConductorClosed))), "C10: add_publication after close reports the client is closed");
+            std::mem::forget(r1);
+            let r2 = c.find_counter(rid);
+            assert!(matches!(r2, Err(AeronError::Generic(GenericError::ClientConductorClosed))), "C10: find_counter after close reports the client is closed");
+            std::mem::forget(r2);
+            assert!(b.ring_tail() == tail, "C10: API calls on a closed client write nothing");
+        }
+        if $again {
+            c.on_client_timeout(victim);
+            let _ = c.on_close();
+            assert!(unsafe { SEEN.errors } == 1 && unsafe { SEEN.closes } == 1, "C10: closing twice fires nothing again");
+        }
+    } else {
+        assert!(!c.is_closed() && unsafe { SEEN.errors } == 0 && unsafe { SEEN.closes } == 0, "C10: a timeout event for another client is ignored");
+    }
+    kani::cover!(victim == CLIENT_ID, "[must] own timeout path");
+    kani::cover!(victim != CLIENT_ID, "[must] foreign timeout path");
     std::mem::forget(c);
 }
+    };
+}
+// @verif tier=quick unwind=6 fs=1300 timeout=1200
+client_timeout!(c10_client_timeout_then_api_reports_closed, 0, true, false);
+// @verif tier=quick unwind=6 fs=1300 timeout=1200
+client_timeout!(c10_client_timeout_twice_and_close_fire_once, 0, false, true);
+// @verif tier=quick unwind=6 fs=1300 timeout=1200
+client_timeout!(c10_client_timeout_awaiting_counter, 1, false, false);
+// @verif tier=thorough unwind=6 fs=1300 timeout=1200
+client_timeout!(c10_client_timeout_awaiting_subscription, 2, false, false);
+// @verif tier=thorough unwind=6 fs=1300 timeout=1200
+client_timeout!(c10_client_timeout_awaiting_publication, 3, false, false);
